@@ -126,7 +126,9 @@ func stuckResumedConsumer(r *monitor.Run) {
 		d1 := monitor.GoroutineDump("gmqtt/server")
 		time.Sleep(5 * time.Second)
 		d2 := monitor.GoroutineDump("gmqtt/server")
-		if sameGoroutines(d1, d2) && monitor.Jitter(t0) < 500*time.Millisecond {
+		// (a broker that is merely slow answers the fresh client, or its goroutines move; a publisher that timed out on a
+		// loaded machine while the fresh client was served proves nothing)
+		if cerr != nil && sameGoroutines(d1, d2) && monitor.Jitter(t0) < 500*time.Millisecond {
 			r.Violation(fmt.Sprintf("request.unanswered:stuck_resumed_consumer:publisher=%v:fresh_client=%v", perr != nil, cerr != nil), fmt.Sprintf("a resumed session whose client does not read (retransmission of %d x 512 KiB stuck in its socket, in-flight entries expired, queue full): the PUBLISH of another client to its topic: %v; CONNECT+PINGREQ of a fresh client: %v; the broker's goroutines have not moved for 5 s", n, perr, cerr), map[string]any{"goroutines": d1})
 		} else {
 			r.Inconclusive(fmt.Sprintf("stuck consumer: publisher %v, fresh client %v, but the broker is making progress", perr, cerr))
